@@ -16,6 +16,7 @@
 -/
 import SeedModel.Parse
 import SeedProofs.ParseProps
+import SeedProofs.Lemmas.ParseRT2Image
 namespace Seed.C08
 
 -- audit: Seed.parse_print Seed.left_assoc Seed.tighter_first_lt Seed.tighter_first_gt Seed.range_loosest_right Seed.range_loosest_left Seed.range_left_assoc Seed.neg_literal_operand Seed.neg_literal_after_operand Seed.neg_literal_after_operator Seed.no_unary_minus Seed.parens_override_left Seed.parens_override_right Seed.binOps_tiers Seed.roundtrip_rel Seed.roundtrip_parseExpr
@@ -99,5 +100,215 @@ theorem opAt_as_documented (k : Nat) (t : Token) (op : BinaryOp) :
 example : opAt 4 Token.Mod = some BinaryOp.Mod := by decide
 example : opAt 3 Token.Mod = none := by decide
 example : documentedOp Token.LessThanEquals = some (BinaryOp.Lte, 4) := rfl
+
+end Seed.C08
+
+/-! ## The rest of the grammar: `parse (print t) = t` for every tree the parser can produce
+
+  Lemmas/ParseRT2*.lean extend the round trip `parse_print` from the operator fragment to the whole grammar
+  of SeedModel/Parse.lean, on the model's own syntax tree (SeedModel/Ast.lean):
+
+    Defs     `prR k e` / `prE` / `prStmt` / `prStmts`   total token printers; parentheses exactly where the
+                                                        level of a sub-expression is looser than its slot
+             `stripR` / `stripE` / `stripStmts`         erase the stored positions
+             `wfR` / `wfE` / `wfStmt` / `wfStmts`       decidable shape of the parser's image: a collecting
+                                                        list / parameter list is non-empty, a block and an
+                                                        `if` are non-empty, `op=` uses one of `Gen.assignOps`
+    Rel, StmtRel   fuel-free relations, one constructor lemma per production of the parser
+    Expr, Main     postfix forms, list / object / function literals, operators; `exprStep`, `rt_noFn`
+    Brace          statements beginning with `{`: block / object-literal ambiguity (`BL`, `SE`, `pre_swap`)
+    Stmt, Prog     statements; `rt_all`; `parse_print_expr`, `parse_print_prog`
+    Sound          `parse_sound`: the parser only returns well-formed trees — so `parse ∘ print` is the
+                   identity (up to positions) exactly on the parser's image
+    Image          `image_iff`: well-formed = returned by the parser from some token list (up to positions);
+                   `prStmts_injective`: different trees are never printed alike
+
+  Levels of `prR k`: 1 = `..`, 2–4 = the tiers of `Gen.binOps`, 5 = postfix forms (`e[i]`, `e[a:b]`, `e.x`,
+  `e->x`, `e(args)`) and atoms (literals, names, `[…]`, `{…}`, `fn(…){…}`, `(e)`): the operand of a postfix
+  form is printed at level 5, so it is parenthesised iff it is a binary-operator or `..` expression — a
+  negative literal, a list, an object or a function literal needs none.  Every other slot (index, argument,
+  item, property key / value, parameter, condition, right-hand side, statement) takes level 1.
+-/
+namespace Seed.C08
+open Seed
+
+-- audit: Seed.parse_print_prog Seed.parse_print_prog_rel Seed.parse_print_expr Seed.parse_print_expr_rel Seed.parse_print_expr0 Seed.parse_print_expr0_rel Seed.rt_all Seed.rt_noFn Seed.exprStep Seed.stmtStep Seed.blStep Seed.SE_of_RT_BL Seed.BL_object Seed.PExpr1.pre_swap Seed.prR_starts
+-- audit: Seed.image_iff Seed.image_iff_expr Seed.prStmts_injective Seed.prE_injective Seed.wfStmts_strip Seed.wfE_strip
+-- audit: Seed.psoundAll Seed.parse_sound Seed.parseExpr_sound Seed.parseProg_sound Seed.parseExprTop_sound Seed.print_parse_section Seed.print_parse_section_expr
+-- audit: Seed.RT_bin Seed.RT_range Seed.KeyPR_index Seed.KeyPR_rangeIndex Seed.KeyPR_prop Seed.KeyPR_call Seed.args_rt Seed.list_rt Seed.params_rt Seed.props_rt Seed.AtomicR_list Seed.AtomicR_object Seed.AtomicR_func Seed.AtomicR_paren Seed.StmtRT_block Seed.StmtRT_if Seed.StmtRT_for Seed.StmtRT_func Seed.stmts_rt_top
+
+/-- C08, whole programs: for every well-formed program `p`, every token list spelling `prStmts p` — whatever
+    positions the tokens carry — is parsed by `parseStmts` (what `parseProg` runs on the lexer's output), with
+    the driver's fuel, to a program equal to `p` up to stored positions, consuming every token. -/
+theorem roundtrip_program (p : List Stmt) (hwf : wfStmts true p = true) (ts : List Span)
+    (hts : ts.map Span.tok = prStmts p) :
+    ∃ p', parseStmts (parseFuel ts) false [] ts = .ok p' [] ∧ stripStmts p' = stripStmts p :=
+  parse_print_prog p hwf ts hts
+
+/-- the same through the front end `parseProg`: a source text whose tokens are the printed ones is parsed
+    to `p` (up to positions) -/
+theorem roundtrip_parseProg (p : List Stmt) (hwf : wfStmts true p = true) (src : List Char)
+    (hlex : (lexAll src).2 = none) (hts : (lexAll src).1.map Span.tok = prStmts p) :
+    ∃ p', parseProg src = .ok p' ∧ stripStmts p' = stripStmts p := by
+  obtain ⟨p', hp, hs⟩ := parse_print_prog p hwf (lexAll src).1 hts
+  refine ⟨p', ?_, hs⟩
+  unfold parseProg
+  generalize lexAll src = lx at hlex hp
+  obtain ⟨ts, le⟩ := lx
+  simp only at hlex hp
+  subst hlex
+  simp only [hp]
+
+/-- C08, expressions: the same for every well-formed expression (postfix forms, literals of all kinds,
+    function literals with their statements, operators), in the top-level expression slot -/
+theorem roundtrip_expression (e : Expr) (hwf : wfE true e = true) (ts : List Span)
+    (hts : ts.map Span.tok = prE 1 e) :
+    ∃ e', parseExpr (parseFuel ts) false ts = .ok e' [] ∧ stripE e' = stripE e :=
+  parse_print_expr e hwf ts hts
+
+/-- … and inside any context: followed by a token that cannot extend an expression (a closing bracket,
+    `,`, `:`, `;`, `{`, `in`, an assignment operator, or a spread marker where spreads are allowed), the
+    expression parser returns the tree and stops exactly there -/
+theorem roundtrip_expression_in_context (e : Expr) (hwf : wfE true e = true) (s : Bool) (ts rest : List Span)
+    (hts : ts.map Span.tok = prE 1 e) (hst : stops s rest) (fuel : Nat) (hf : 10 * (ts ++ rest).length + 8 ≤ fuel) :
+    ∃ e', parseExpr fuel s (ts ++ rest) = .ok e' rest ∧ stripE e' = stripE e := by
+  obtain ⟨e', he', hp⟩ := parse_print_expr_rel e hwf s ts rest hts hst
+  exact ⟨e', hp.at_fuel fuel hf, he'⟩
+
+/-- the parser's image is well-formed: together with `roundtrip_program`, `parse ∘ print` is the identity
+    (up to positions) exactly on what the front end can return -/
+theorem image_wf {src : List Char} {p : List Stmt} (h : parseProg src = .ok p) : wfStmts true p = true :=
+  parseProg_sound h
+
+theorem print_is_section {src : List Char} {p : List Stmt} (h : parseProg src = .ok p) (ts : List Span)
+    (hts : ts.map Span.tok = prStmts p) :
+    ∃ p', parseStmts (parseFuel ts) false [] ts = .ok p' [] ∧ stripStmts p' = stripStmts p :=
+  print_parse_section h ts hts
+
+/-- the domain of the round trip is exactly the parser's image: `p` is well-formed iff some token list is
+    parsed to `p` up to positions -/
+theorem wf_iff_parsed (p : List Stmt) :
+    wfStmts true p = true ↔
+      ∃ ts p', parseStmts (parseFuel ts) false [] ts = .ok p' [] ∧ stripStmts p' = stripStmts p :=
+  image_iff p
+
+/-- the printed parentheses always suffice: two well-formed programs with the same printed tokens are equal
+    up to positions -/
+theorem print_injective (p q : List Stmt) (hp : wfStmts true p = true) (hq : wfStmts true q = true)
+    (h : prStmts p = prStmts q) : stripStmts p = stripStmts q :=
+  prStmts_injective p q hp hq h
+
+/-! ### concrete instances (every hypothesis above is satisfiable; the printer's parentheses) -/
+
+/-- the printed tokens at position zero -/
+def spans0 (toks : List Token) : List Span := toks.map fun t => ⟨(0, 0), t, (0, 0)⟩
+
+private def v (s : List Char) : Expr := .mk (.Var s) (0, 0)
+private def n (k : Int) : Expr := .mk (.Int k) (0, 0)
+private def bin (op : BinaryOp) (l r : Expr) : Expr := .mk (.BinaryOp op (0, 0) l r) (0, 0)
+private def idx (e i : Expr) : Expr := .mk (.Index e i) (0, 0)
+
+-- postfix binds tighter than every binary operator: `a * b[0]` needs no parentheses, `(a * b)[0]` does
+example : prE 1 (bin .Mul (v c!"a") (idx (v c!"b") (n 0))) =
+    [.Ident c!"a", .Mul, .Ident c!"b", .BracketOpen, .IntLiteral 0, .BracketClose] := by decide +kernel
+example : prE 1 (idx (bin .Mul (v c!"a") (v c!"b")) (n 0)) =
+    [.ParenOpen, .Ident c!"a", .Mul, .Ident c!"b", .ParenClose, .BracketOpen, .IntLiteral 0, .BracketClose] := by
+  decide +kernel
+example : wfE true (idx (bin .Mul (v c!"a") (v c!"b")) (n 0)) = true := by decide +kernel
+-- and these parentheses are needed: without them the tokens are the other tree
+example : parseExpr 200 false (spans0 [.Ident c!"a", .Mul, .Ident c!"b", .BracketOpen, .IntLiteral 0, .BracketClose]) =
+    .ok (bin .Mul (v c!"a") (idx (v c!"b") (n 0))) [] := by rfl
+example : parseExpr 200 false
+    (spans0 [.ParenOpen, .Ident c!"a", .Mul, .Ident c!"b", .ParenClose, .BracketOpen, .IntLiteral 0, .BracketClose]) =
+    .ok (idx (bin .Mul (v c!"a") (v c!"b")) (n 0)) [] := by rfl
+
+-- a negative literal is an atom: `-1[0]` indexes the literal, `a - -1.x` subtracts a property of `-1`
+example : prE 1 (idx (n (-1)) (n 0)) = [.Sub, .IntLiteral 1, .BracketOpen, .IntLiteral 0, .BracketClose] := by
+  decide +kernel
+example : parseExpr 200 false (spans0 [.Sub, .IntLiteral 1, .BracketOpen, .IntLiteral 0, .BracketClose]) =
+    .ok (idx (n (-1)) (n 0)) [] := by rfl
+example : parseExpr 200 false (spans0 [.Ident c!"a", .Sub, .Sub, .IntLiteral 1, .Dot, .Ident c!"x"]) =
+    .ok (bin .Sub (v c!"a") (.mk (.Prop (n (-1)) c!"x" false) (0, 0))) [] := by rfl
+
+-- there is no unary minus, so `-x[0]` is a syntax error at `x` (`no_unary_minus`)
+example : parseExpr 200 false (spans0 [.Sub, .Ident c!"x", .BracketOpen, .IntLiteral 0, .BracketClose]) =
+    .err (.tok ⟨(0, 0), .Ident c!"x", (0, 0)⟩) := by rfl
+-- a trailing comma is accepted in lists, arguments, objects and parameters and leaves no trace (the printer
+-- never emits one): `[a,]` `f(a,)` `{a,}`
+example : parseExpr 200 false (spans0 [.BracketOpen, .Ident c!"a", .Comma, .BracketClose]) =
+    .ok (.mk (.List [.mk (v c!"a") false] false) (0, 0)) [] := by rfl
+example : parseExpr 200 false (spans0 [.Ident c!"f", .ParenOpen, .Ident c!"a", .Comma, .ParenClose]) =
+    .ok (.mk (.Call (v c!"f") [.mk (v c!"a") false]) (0, 0)) [] := by rfl
+example : parseExpr 200 false (spans0 [.BraceOpen, .Ident c!"a", .Comma, .BraceClose]) =
+    .ok (.mk (.Object [.Single (v c!"a") false false]) (0, 0)) [] := by rfl
+-- the collecting item of a list literal is its last item, after any number of ordinary items: `[a, ..b]`
+example : parseExpr 200 false (spans0 [.BracketOpen, .Ident c!"a", .Comma, .DotDot, .Ident c!"b", .BracketClose]) =
+    .ok (.mk (.List [.mk (v c!"a") false, .mk (v c!"b") false] true) (0, 0)) [] := by rfl
+
+-- chains, type-function calls, spread arguments, range indices: `a.b[0](x, y..)->f(z)[:1]`
+private def chain : Expr :=
+  .mk (.RangeIndex (.mk (.Call (.mk (.Prop (.mk (.Call (idx (.mk (.Prop (v c!"a") c!"b" false) (0, 0)) (n 0))
+    [.mk (v c!"x") false, .mk (v c!"y") true]) (0, 0)) c!"f" true) (0, 0)) [.mk (v c!"z") false]) (0, 0))
+    none (some (n 1))) (0, 0)
+example : prE 1 chain =
+    [.Ident c!"a", .Dot, .Ident c!"b", .BracketOpen, .IntLiteral 0, .BracketClose, .ParenOpen, .Ident c!"x", .Comma,
+      .Ident c!"y", .DotDot, .ParenClose, .DashGreaterThan, .Ident c!"f", .ParenOpen, .Ident c!"z", .ParenClose,
+      .BracketOpen, .Colon, .IntLiteral 1, .BracketClose] := by decide +kernel
+example : wfE true chain = true := by decide +kernel
+example : parseExpr (parseFuel (spans0 (prE 1 chain))) false (spans0 (prE 1 chain)) = .ok chain [] := by rfl
+
+-- list / object / function literals as operands and operands of postfix forms, no parentheses:
+-- `[a, ..b..][0]`, `{k: 1, s, ..r}.k`, `fn(x, ..r) { return x; }(1)`
+private def lits : Expr :=
+  bin .Sum (idx (.mk (.List [.mk (v c!"a") false, .mk (v c!"b") true] true) (0, 0)) (n 0))
+    (bin .Mul (.mk (.Prop (.mk (.Object [.Pair (v c!"k") (n 1), .Single (v c!"s") false false,
+        .Single (v c!"r") false true]) (0, 0)) c!"k" false) (0, 0))
+      (.mk (.Call (.mk (.Func [v c!"x", v c!"r"] true [.Return (0, 0) (v c!"x")]) (0, 0)) [.mk (n 1) false]) (0, 0)))
+example : wfE true lits = true := by decide +kernel
+example : prE 1 lits =
+    [.BracketOpen, .Ident c!"a", .Comma, .DotDot, .Ident c!"b", .DotDot, .BracketClose, .BracketOpen, .IntLiteral 0,
+      .BracketClose, .Sum,
+      .BraceOpen, .Ident c!"k", .Colon, .IntLiteral 1, .Comma, .Ident c!"s", .Comma, .DotDot, .Ident c!"r", .BraceClose,
+      .Dot, .Ident c!"k", .Mul,
+      .Fn, .ParenOpen, .Ident c!"x", .Comma, .DotDot, .Ident c!"r", .ParenClose, .BraceOpen, .Return, .Ident c!"x",
+      .StmtEnd, .BraceClose, .ParenOpen, .IntLiteral 1, .ParenClose] := by decide +kernel
+example : parseExpr (parseFuel (spans0 (prE 1 lits))) false (spans0 (prE 1 lits)) = .ok lits [] := by rfl
+
+-- statements; an expression statement or assignment target may begin with `{` (object literal, also nested as
+-- the first key) without parentheses, a block is `{ stmt; … }`
+private def prog : List Stmt := [
+  .Declare (.mk (.Object [.Single (v c!"a") false false, .Single (v c!"b") true false]) (0, 0)) (v c!"o"),
+  .Expr (.mk (.Prop (.mk (.Object [.Pair (.mk (.Prop (.mk (.Object []) (0, 0)) c!"k" false) (0, 0)) (n 1)]) (0, 0))
+    c!"x" false) (0, 0)),
+  .Block [.Expr (.mk (.Object [.Single (v c!"q") false false]) (0, 0)), .OpAssign (v c!"a") .Sum (0, 0) (n 2)],
+  .If [.mk (bin .Lt (v c!"a") (n 1)) [.Break (0, 0)], .mk (v c!"c") []] (some [.Continue (0, 0)]),
+  .For (v c!"i") (.mk (.Range (n 0) (n 3)) (0, 0)) [.While (v c!"t") [.Assign (idx (v c!"a") (v c!"i")) (n 0)]],
+  .Func c!"g" (0, 0) [v c!"x"] false [.Return (0, 0) (v c!"x")]]
+example : wfStmts true prog = true := by decide +kernel
+example : (prStmts prog).take 16 =
+    [.BraceOpen, .Ident c!"a", .Comma, .Ident c!"b", .DotDot, .BraceClose, .ColonEquals, .Ident c!"o", .StmtEnd,
+      .BraceOpen, .BraceOpen, .BraceClose, .Dot, .Ident c!"k", .Colon, .IntLiteral 1] := by decide +kernel
+set_option maxRecDepth 100000 in
+example : parseStmts (parseFuel (spans0 (prStmts prog))) false [] (spans0 (prStmts prog)) = .ok prog [] := by rfl
+example : stripStmts prog = prog := by rfl
+
+-- through the lexer: the hypotheses of `roundtrip_parseProg` hold for a source text spelling the printed tokens
+private def src : List Char := c!"{a, b} := o;\nx = {k: 1}.k[0](y..);"
+private def srcProg : List Stmt := [
+  .Declare (.mk (.Object [.Single (v c!"a") false false, .Single (v c!"b") false false]) (0, 0)) (v c!"o"),
+  .Assign (v c!"x") (.mk (.Call (idx (.mk (.Prop (.mk (.Object [.Pair (v c!"k") (n 1)]) (0, 0)) c!"k" false) (0, 0))
+    (n 0)) [.mk (v c!"y") true]) (0, 0))]
+example : (lexAll src).2 = none ∧ (lexAll src).1.map Span.tok = prStmts srcProg ∧ wfStmts true srcProg = true := by
+  decide +kernel
+example : ∃ p', parseProg src = .ok p' ∧ stripStmts p' = stripStmts srcProg :=
+  roundtrip_parseProg srcProg (by decide +kernel) src (by decide +kernel) (by decide +kernel)
+
+-- outside the image: an empty block statement, a collecting list without items, `&&=`
+example : wfStmt true (.Block []) = false := by decide +kernel
+example : wfE true (.mk (.List [] true) (0, 0)) = false := by decide +kernel
+example : wfStmt true (.OpAssign (v c!"a") .And (0, 0) (n 1)) = false := by decide +kernel
+-- `{ }` in statement position is the empty object literal, never a block
+example : parseStmts 200 false [] (spans0 [.BraceOpen, .BraceClose, .StmtEnd]) =
+    .ok [.Expr (.mk (.Object []) (0, 0))] [] := by rfl
 
 end Seed.C08
